@@ -315,7 +315,7 @@ func genHistory(r *Rng) histCase {
 func init() {
 	stages["c12-search"] = func(ctx *Ctx, cnt func(q, t int) int, replay string) Result {
 		col := NewCollector("C12", "search", "random histories (2-10 operations) of AddPaths / Execute / ExecuteOC / ExecutePolyTree with changing clip types and fill rules, pre-filled solution arguments and open paths on clipper64 and clipperD, and AddPaths / Execute64 with changing deltas on ClipperOffset; every execution's result is compared exactly with that of a fresh object given the same paths in one call per path class; deep copies of every input are compared after each call, and every path-level library call is checked for input immutability (including writes by the caller into returned slices); non-trivial = a history with ≥ 2 executions; distinct by history")
-		parallelFor(ctx, cnt(8000, 400000), true, col, func(o *Oracle, i int) {
+		parallelFor(ctx, cnt(40000, 400000), true, col, func(o *Oracle, i int) {
 			r := NewRng(ctx.Seed, "c12", i)
 			if i%10 == 9 {
 				ok, detail := c12Immutable(r)
